@@ -60,6 +60,41 @@ func (s *Sink) Write(p []byte) (int, error) {
 	return len(p), nil
 }
 
+// RichSink is a Sink that also offers the optional methods a library may look
+// for on its destination (Flush, Sync, Close, WriteString, ReadFrom). They all
+// succeed; data still goes through Sink.Write, so injected faults apply.
+type RichSink struct {
+	*Sink
+	Flushes, Syncs, Closes int
+}
+
+func (r *RichSink) Flush() error { r.Flushes++; return nil }
+func (r *RichSink) Sync() error  { r.Syncs++; return nil }
+func (r *RichSink) Close() error { r.Closes++; return nil }
+func (r *RichSink) WriteString(s string) (int, error) {
+	return r.Sink.Write([]byte(s))
+}
+func (r *RichSink) ReadFrom(src io.Reader) (int64, error) {
+	buf := make([]byte, 32<<10)
+	var total int64
+	for {
+		n, err := src.Read(buf)
+		if n > 0 {
+			m, werr := r.Sink.Write(buf[:n])
+			total += int64(m)
+			if werr != nil {
+				return total, werr
+			}
+		}
+		if err == io.EOF {
+			return total, nil
+		}
+		if err != nil {
+			return total, err
+		}
+	}
+}
+
 // Op is one step of a writer history.
 type Op struct {
 	Kind string // "add", "write", "close"
@@ -238,6 +273,63 @@ type Source struct {
 }
 
 func NewSource(b []byte) *Source { return &Source{Data: b, FailAt: -1} }
+
+// RichSource is a Source that also offers ReadByte, ReadAt and WriteTo (what
+// *os.File, bytes.Reader and bufio.Reader offer); every such call is a source
+// call like Read: it is counted, fragmented and subject to the injected fault.
+type RichSource struct{ *Source }
+
+func (r RichSource) ReadByte() (byte, error) {
+	var b [1]byte
+	for {
+		n, err := r.Source.Read(b[:])
+		if n == 1 {
+			return b[0], nil
+		}
+		if err != nil {
+			return 0, err
+		}
+	}
+}
+
+func (r RichSource) ReadAt(p []byte, off int64) (int, error) {
+	if r.Source.fail() {
+		if !r.Source.Failed {
+			r.Source.Failed = true
+			r.Source.FailOff = off
+		}
+		return 0, ErrInjected
+	}
+	if off >= int64(len(r.Source.Data)) {
+		return 0, io.EOF
+	}
+	n := copy(p, r.Source.Data[off:])
+	if n < len(p) {
+		return n, io.EOF
+	}
+	return n, nil
+}
+
+func (r RichSource) WriteTo(w io.Writer) (int64, error) {
+	buf := make([]byte, 4096)
+	var total int64
+	for {
+		n, err := r.Source.Read(buf)
+		if n > 0 {
+			m, werr := w.Write(buf[:n])
+			total += int64(m)
+			if werr != nil {
+				return total, werr
+			}
+		}
+		if err == io.EOF {
+			return total, nil
+		}
+		if err != nil {
+			return total, err
+		}
+	}
+}
 
 func (s *Source) fail() bool {
 	idx := s.Calls
